@@ -7,6 +7,24 @@ ROOT = os.path.dirname(os.path.dirname(os.path.abspath(__file__)))
 
 # pid -> (technique, level text, level_note)
 CHECKS = {
+    "C01": ("reference-model monitor: real dex.get_instruction vs bit-sliced Dalvik decoder; first code unit exhaustive (65536 values), boundary/random remaining units, in-pool index resolution",
+            "Every opcode x every high byte with boundary and random operand units is decoded by the real code and compared (length, get_raw round trip, mnemonic, registers, sign-extended literals, high16 shifts, branch offsets, unsigned pool indices, resolved pool items); unused opcodes and truncated buffers must raise InvalidInstruction.",
+            "trusts vf/model/dalvik.py (table transcribed from the bytecode spec; all 233 mnemonics agree with androguard's names, disagreement would be reported)"),
+    "C05": ("reference-model monitor: generated class models -> independent DEX writer -> DEX(); canonical dump and all name/descriptor lookups (incl. near-miss and concatenation-collision keys) compared with the model",
+            "Hundreds (quick) / thousands (thorough) of random class models with adversarial identifiers, shared member names, index-diff encoded member lists, code-less methods, DEX 035-039.",
+            "trusts vf/model/dexw.py (self-checked output); descriptors compared with spaces removed"),
+    "C06": ("reference-model monitor: strings over the full code-point range encoded with an own MUTF-8 encoder, compared as UTF-16 code units via get_strings / get_string(i) / member names / const-string operands",
+            "Random pools incl. U+0000, lone and reversed surrogates, non-BMP, byte lengths around the reader's 128-byte chunk size.",
+            "MUTF-8 decoding is delegated by androguard to the third-party mutf8 extension"),
+    "C07": ("metamorphic monitor: all permutations of 6- and 7-entry map lists (5760 files) + random permutations of random models; dump must equal the unpermuted file's; MapItem.parse order logged",
+            "Exhaustive over the permutations of two tiny files, sampled for larger ones.",
+            "trusts that permuting map entries leaves the file otherwise valid (checksum and signature recomputed)"),
+    "C09": ("fault enumeration with a parse-counter monitor: every offset >= 12 of 5 small generated DEX files x byte values; wrong magic/endian/header-size with re-fixed checksum; MapList/MapItem.parse counters must stay 0 on rejection",
+            "Every single-byte position of the chosen files is changed (3 values quick, all 255 thorough) and DEX() must raise before any map item is parsed.",
+            "version digits of the magic and the ODEX magic are tolerated by design"),
+    "C23": ("reference-model monitor: writer.string() on all 65536 BMP code points + random full-range strings, literal decoded by an own JLS 3.3/3.10.7 lexer; thorough adds real javac + JVM printing the code units",
+            "Exhaustive over the BMP as one-char strings; random strings with controls, quotes, backslash-u sequences, lone surrogates, supplementary characters.",
+            "own JLS lexer (cross-checked against javac in thorough); strings with a lone high surrogate directly followed by a backslash are excluded from the javac oracle (JDK 17 lexer quirk), JLS oracle still decides them"),
     "C03": ("reference-model monitor on direct calls (Leb128.java semantics), exhaustive 1-2 byte sequences + boundary product + random",
             "Every 1- and 2-byte sequence exhaustively, boundary products for 3-5 bytes, random sequences and encode->decode of boundary/random 32-bit values are executed against the real functions and compared with an independent Leb128.java model. Held = no divergence on what was executed.",
             "trusts the re-implementation of Leb128.java in vf/checks/c03.py; 5-byte sequences encoding >32 bits are out of domain"),
